@@ -488,6 +488,10 @@ def check_C07(ctx):
         json.dump({"cmd": "trace-binary", "property": "C07", "src": rec["src"], "line": rec["line"],
                    "diffs": ["the specification's decoder does not accept / does not agree with the bytes written by Ontology::as_bytes (source %s)" % rec["src"]]}, open(rp, "w"))
         ctx.violations.append(dict(property="C07", what="spec Decode rejects as_bytes output (source %s)" % rec["src"], replay=rp))
+    # growth beyond the listed properties: Ontology::compare against spec/HpoCompare.tla (reported as EXTRA only)
+    co = tlc(ctx, "mc/MC_CompareQuick.cfg" if ctx.quick else "mc/MC_Compare.cfg", "mc/MC_Compare.tla", workers=14)["out"]
+    cs = hv(ctx, "replay-compare", **{"in": co})
+    ctx.extra["extra_compare_pairs"] = cs.get("cases", 0)
     ctx.assumptions += ["replacement id 0 is excluded: the layout reserves 0 for 'no replacement'",
                         "ontologies must contain HP:0000001 and HP:0000118 (from_bytes applies the default categories)"]
     return finish(ctx)
